@@ -51,6 +51,11 @@ def validate_inputs(
     active_nodes, active_subgraph = _resolve_active_scope(graph, selected)
     inputs_spec = _resolve_effective_input_spec(graph, selected, active_scope=(active_nodes, active_subgraph))
     cycle_ep_params = {p for params in inputs_spec.entrypoints.values() for p in params}
+    # A bound cycle param bootstraps its cycle just like a provided entry point
+    # param: it is neither an injected intermediate value nor a producer bypass
+    from hypergraph.graph.input_spec import bound_cycle_params
+
+    cycle_ep_params |= bound_cycle_params(active_nodes, active_subgraph, inputs_spec.bound)
 
     # Step 1: Merge bound + provided
     merged = {**inputs_spec.bound, **values}
@@ -62,7 +67,7 @@ def validate_inputs(
     expected_inputs = set(inputs_spec.all)
     edge_produced = get_edge_produced_values(active_subgraph)
     interrupt_outputs = _get_interrupt_outputs(active_nodes)
-    unexpected = provided - expected_inputs - interrupt_outputs
+    unexpected = provided - expected_inputs - interrupt_outputs - (cycle_ep_params & set(inputs_spec.bound))
     internal_edge = unexpected & edge_produced
     unknown = unexpected - edge_produced
 
@@ -84,7 +89,7 @@ def validate_inputs(
     )
 
     # Step 4: Bypass detection (considering merged values)
-    bypassed_inputs = _find_bypassed_inputs(graph, provided, inputs_spec)
+    bypassed_inputs = _find_bypassed_inputs(graph, provided, inputs_spec, cycle_ep_params)
 
     # Step 5: Cycle entry point matching
     if inputs_spec.entrypoints:
@@ -494,7 +499,12 @@ def _build_internal_override_message(
     return " ".join(message)
 
 
-def _find_bypassed_inputs(graph: Graph, provided: set[str], inputs_spec: InputSpec) -> set[str]:
+def _find_bypassed_inputs(
+    graph: Graph,
+    provided: set[str],
+    inputs_spec: InputSpec,
+    cycle_ep_params: set[str] | None = None,
+) -> set[str]:
     """Find inputs that belong to nodes fully bypassed by intermediate injection.
 
     A node is bypassed ONLY if ALL of its outputs that are consumed downstream
@@ -522,7 +532,8 @@ def _find_bypassed_inputs(graph: Graph, provided: set[str], inputs_spec: InputSp
 
     # Cycle entry point params: providing these means bootstrapping a cycle,
     # NOT bypassing the producer node. Exclude from bypass check.
-    cycle_ep_params = {p for params in inputs_spec.entrypoints.values() for p in params}
+    if cycle_ep_params is None:
+        cycle_ep_params = {p for params in inputs_spec.entrypoints.values() for p in params}
 
     # A node is bypassed only if ALL its non-cycle consumed outputs are provided
     bypassed_nodes: set[str] = set()
